@@ -41,6 +41,39 @@ type C08Case struct {
 // registry configurations: user-extensible registries incl. obligatory directives
 var c08Configs = [][]string{nil, {"verifBang"}, {"verifBang", "verifBang"}, {"noAutoescape"}, {"verifNoSuch"}}
 
+// perturbData returns data of the same shape with every scalar changed.
+func perturbData(d map[string]ref.Value) map[string]ref.Value {
+	var pv func(v ref.Value) ref.Value
+	pv = func(v ref.Value) ref.Value {
+		switch v.K {
+		case ref.String:
+			return ref.S(v.S + "~")
+		case ref.Int:
+			return ref.I(v.I + 1)
+		case ref.Bool:
+			return ref.B(!v.B)
+		case ref.List:
+			out := make([]ref.Value, len(v.L))
+			for i := range v.L {
+				out[len(v.L)-1-i] = pv(v.L[i])
+			}
+			return ref.L(out...)
+		case ref.Map:
+			out := map[string]ref.Value{}
+			for k, x := range v.M {
+				out[k] = pv(x)
+			}
+			return ref.M(out)
+		}
+		return v
+	}
+	out := map[string]ref.Value{}
+	for k, v := range d {
+		out[k] = pv(v)
+	}
+	return out
+}
+
 // mapBundle is a message bundle backed by a plain map (identity translations).
 type mapBundle struct{ msgs map[uint64]*soymsg.Message }
 
@@ -146,7 +179,7 @@ func genC08(t *rapid.T) C08Case {
 		}
 	}
 	for i, n := 0, rapid.IntRange(4, scale(25, 60)).Draw(t, "nops"); i < n; i++ {
-		op := C08Op{Op: rapid.SampledFrom([]string{"render", "render", "render", "renderMsgs", "js", "jsMsgs", "config", "renderFail", "rows"}).Draw(t, "op")}
+		op := C08Op{Op: rapid.SampledFrom([]string{"render", "render", "render", "renderMsgs", "js", "jsMsgs", "config", "renderFail", "rows", "keys"}).Draw(t, "op")}
 		op.Via = rapid.IntRange(0, 1).Draw(t, "via")
 		op.Tmpl = rapid.IntRange(0, 7).Draw(t, "tmpl")
 		op.Data = rapid.IntRange(0, 3).Draw(t, "data")
@@ -158,12 +191,14 @@ func genC08(t *rapid.T) C08Case {
 
 // c08Rows is a template rendered from Go structs (Tofu.Render converts them): two struct types that are
 // both called "row" (see localRowA / localRowB) must each show their own fields, whatever came before.
+const c08Keys = "\n/** @param m */\n{template .zzKeyOrder}{foreach $k in keys($m)}{$k}={$m[$k]};{/foreach}{let $lit: ['b': 1, 'a': 2, 'd': 3, 'c': 4] /}{foreach $k in keys($lit)}{$k}{/foreach}{/template}\n"
+
 const c08Rows = "\n/**\n * @param? name\n * @param? qty\n * @param? title\n * @param? count */\n{template .zzRows}{$name ?: '-'}|{$qty ?: '-'}|{$title ?: '-'}|{$count ?: '-'}{/template}\n"
 
 func checkC08(c C08Case) Verdict {
 	names, srcs := gen.Sources(&c.Prog.Prog)
 	if len(srcs) > 0 {
-		srcs[0] += c08Rows
+		srcs[0] += c08Rows + c08Keys
 	}
 	cb, err, pn := compileBundle(names, srcs, c.Prog.Prog.Globals)
 	if err != nil || pn != nil {
@@ -186,6 +221,14 @@ func checkC08(c C08Case) Verdict {
 	}
 	for _, d := range c.Datas {
 		dataSets = append(dataSets, toDataMap(d))
+	}
+	// a second valid data set per template: the same shape, every value changed (what a later request
+	// brings; anything kept from the render of the first set shows as the first set's values)
+	pbase := len(dataSets)
+	perturbed := make([]map[string]ref.Value, len(fqs))
+	for i, fq := range fqs {
+		perturbed[i] = perturbData(c.Prog.AllData[fq])
+		dataSets = append(dataSets, toDataMap(perturbed[i]))
 	}
 	ij := toDataMap(c.Prog.IJ)
 	msgs := identityBundle(cb)
@@ -244,6 +287,20 @@ func checkC08(c C08Case) Verdict {
 				failure = fmt.Errorf("step %d: Tofu.Render of a struct value (%T %+v) wrote %q (error %v, panic %v), want %q - it depends on what was rendered before", i, val, val, buf.String(), rerr, p, want)
 			}
 			return
+		case "keys":
+			// keys() of a map with several entries: the language promises no particular order, but a
+			// render is a function of its data - the same map gives the same text every time
+			var buf bytes.Buffer
+			var rerr error
+			m := data.Map{}
+			for j := 0; j < 4+op.Data%5; j++ {
+				m[fmt.Sprintf("key%d", j*7%11)] = data.Int(j)
+			}
+			p := catch(func() {
+				rerr = cb.tofu.NewRenderer(c.Prog.Prog.Files[0].Namespace+".zzKeyOrder").Execute(&buf, data.Map{"m": m})
+			})
+			k.d = op.Data % 5
+			result = fmt.Sprintf("out=%q err=%v panic=%v", buf.String(), rerr != nil, p != nil)
 		case "renderFail":
 			// a render whose writer stops accepting bytes: its own result is C12's matter, here it is
 			// one more thing that may have happened before the renders that are compared
@@ -268,6 +325,9 @@ func checkC08(c C08Case) Verdict {
 			di := ti
 			if op.Data > 0 {
 				di = len(fqs) + (op.Data-1)%len(c.Datas)
+			}
+			if op.Data%3 == 2 {
+				di = pbase + ti
 			}
 			k.tmpl, k.d = ti, di
 			var buf bytes.Buffer
@@ -315,12 +375,16 @@ func checkC08(c C08Case) Verdict {
 			}
 			// a render is a pure function of (template, data): it must also equal what the reference
 			// interpreter defines, whatever was rendered before (in this history or earlier in the process)
-			if op.Op == "render" && di == ti && p == nil {
+			if op.Op == "render" && (di == ti || di == pbase+ti) && p == nil {
 				// (under every configuration: the obligatory directives are part of the reference render)
-				want, cached := refOut[[2]int{ti, config}]
+				rk, rdata := ti, c.Prog.AllData[fqs[ti]]
+				if di != ti {
+					rk, rdata = -1-ti, perturbed[ti]
+				}
+				want, cached := refOut[[2]int{rk, config}]
 				if !cached {
-					want = ref.RenderObligatory(&c.Prog.Prog, fqs[ti], c.Prog.AllData[fqs[ti]], c.Prog.IJ, c.Prog.HasIJ, c08Configs[config])
-					refOut[[2]int{ti, config}] = want
+					want = ref.RenderObligatory(&c.Prog.Prog, fqs[ti], rdata, c.Prog.IJ, c.Prog.HasIJ, c08Configs[config])
+					refOut[[2]int{rk, config}] = want
 				}
 				switch {
 				case want.Status == ref.OK && (rerr != nil || ref.CanonRefs(buf.String()) != ref.CanonRefs(want.Out)):
